@@ -14,6 +14,7 @@ from sim.core import EndRun, close, np_seed
 from sim.seams import record_np_random
 
 PROP = "C10"
+FORKS = True      # snapshot / restore events (core.Ctx.maybe_fork)
 LEVEL = "exploration"
 RULE = (
     "seeded batch histories (4-10 batches of 3-34 rows, 1-3 dims, unequal sizes in 60% of runs, duplicates within and across "
@@ -104,6 +105,7 @@ def run(case, ctx):
         drifts = nodrift_interesting = 0
         for i, (rows, seed) in enumerate(case["events"]):
             ctx.step = i
+            det = ctx.maybe_fork(det)
             X = np.array(rows, dtype=float)
             if i == 0:
                 np.random.seed(seed)
